@@ -44,25 +44,25 @@ type vLSched struct {
 }
 
 type vLRes struct {
-	What      string `json:"what"` // the call or background step
-	Role      string `json:"role"` // whole | held | inner
-	Gate      string `json:"gate"`
-	Res       string `json:"res"` // ok | error | panic | blocked | n/a
-	Err       string `json:"err"`
-	TookMs    int64  `json:"tookMs"`
-	TimeoutMs int64  `json:"timeoutMs"`
-	MayPanic  bool   `json:"mayPanic"`
-	Parked    bool   `json:"parked"`        // held calls: did the call reach the gate
-	ParkedMs  int64  `json:"parkedMs"`      // held calls: time spent waiting at the gate
-	Waited    bool   `json:"waited"`        // the call timed out waiting for its broadcast
-	Signalable bool  `json:"signalable"`    // a broadcast carrying the call's notification was queued during the call
-	AfterShutdown bool `json:"afterShutdown"` // Shutdown had returned before the call started
-	Repeat    bool   `json:"repeat"`        // the same call had already returned ok before
-	NodeOps   int    `json:"nodeOps"`       // membership steps on the node during the call
-	Stage     string `json:"stage"`
-	SelfAfter string `json:"selfAfter"` // the node's own record right after the call returned
-	PeerAlive bool   `json:"peerAlive"` // the node listed a live peer when the call started
-	Leaving   bool   `json:"leaving"`   // the leave flag was set when the call returned
+	What          string `json:"what"` // the call or background step
+	Role          string `json:"role"` // whole | held | inner
+	Gate          string `json:"gate"`
+	Res           string `json:"res"` // ok | error | panic | blocked | n/a
+	Err           string `json:"err"`
+	TookMs        int64  `json:"tookMs"`
+	TimeoutMs     int64  `json:"timeoutMs"`
+	MayPanic      bool   `json:"mayPanic"`
+	Parked        bool   `json:"parked"`        // held calls: did the call reach the gate
+	ParkedMs      int64  `json:"parkedMs"`      // held calls: time spent waiting at the gate
+	Waited        bool   `json:"waited"`        // the call timed out waiting for its broadcast
+	Signalable    bool   `json:"signalable"`    // a broadcast carrying the call's notification was queued during the call
+	AfterShutdown bool   `json:"afterShutdown"` // Shutdown had returned before the call started
+	Repeat        bool   `json:"repeat"`        // the same call had already returned ok before
+	NodeOps       int    `json:"nodeOps"`       // membership steps on the node during the call
+	Stage         string `json:"stage"`
+	SelfAfter     string `json:"selfAfter"` // the node's own record right after the call returned
+	PeerAlive     bool   `json:"peerAlive"` // the node listed a live peer when the call started
+	Leaving       bool   `json:"leaving"`   // the leave flag was set when the call returned
 }
 
 type vLLine struct {
@@ -80,24 +80,24 @@ type vLLine struct {
 type vLCount struct{ notify, nodeOps int }
 
 type vLife struct {
-	t      *testing.T
-	s      *vSink
-	nw     *vNet
-	N, P   *Memberlist
-	trN    *vSimTransport
-	md     *vMetaDelegate
-	mu     sync.Mutex
-	gateWant string
-	parked   chan struct{}
-	release  chan struct{}
-	byG map[int64]*vLCount // per API-call goroutine: notifications queued, membership steps
+	t              *testing.T
+	s              *vSink
+	nw             *vNet
+	N, P           *Memberlist
+	trN            *vSimTransport
+	md             *vMetaDelegate
+	mu             sync.Mutex
+	gateWant       string
+	parked         chan struct{}
+	release        chan struct{}
+	byG            map[int64]*vLCount // per API-call goroutine: notifications queued, membership steps
 	goBegin, goEnd int
-	shutAt   time.Time
-	shut     bool
-	sends    []time.Time
-	okBefore map[string]bool
-	bound    time.Duration
-	parkedFor time.Duration
+	shutAt         time.Time
+	shut           bool
+	sends          []time.Time
+	okBefore       map[string]bool
+	bound          time.Duration
+	parkedFor      time.Duration
 }
 
 func vLifeConf(name string, tr *vSimTransport, d Delegate) *Config {
